@@ -32,6 +32,16 @@ theorem C07_pos_valid (s : St) (op : Op) (h : s.pos < U64) (hlen : ∀ l, s.len 
     | none => exact h
     | some l => exact hlen l hs
   | abandon => exact h
+  | resetElapsed => exact h
+  | resetEta => exact h
+  | finishStyle =>
+    show (if s.moves then { s with pos := s.len.getD s.pos, finished := true } else { s with finished := true : St }).pos < U64
+    split
+    · show (s.len.getD s.pos) < U64
+      cases hs : s.len with
+      | none => exact h
+      | some l => exact hlen l hs
+    · exact h
 
 theorem mod_add_mod_right (a b n : Nat) : (a + b % n) % n = (a + b) % n := by
   rw [Nat.add_mod, Nat.mod_mod, ← Nat.add_mod]
@@ -114,6 +124,24 @@ theorem C07_load_store_loses_updates :
 theorem C07_finish (s : St) : (step s .finish).pos = s.len.getD s.pos ∧ (step s .finish).finished = true ∧
     (step s .abandon).pos = s.pos ∧ (step s .abandon).finished = true := by
   simp [step]
+
+theorem moves_upd (s : St) (p : Nat) : ({ s with pos := p } : St).moves = s.moves := rfl
+
+/-- `reset_elapsed` and `reset_eta` leave position, length and status alone; `finish_using_style` is
+`finish` or `abandon` according to the configured behaviour, which no operation changes (so a bar that is
+reset and finished again behaves as the first time) -/
+theorem C07_resets_and_style (s : St) (op : Op) :
+    step s .resetElapsed = s ∧ step s .resetEta = s ∧
+    step s .finishStyle = (if s.moves then { step s .finish with moves := s.moves } else { step s .abandon with moves := s.moves }) ∧
+    (step s op).moves = s.moves := by
+  refine ⟨by simp only [step], by simp only [step], ?_, ?_⟩
+  · cases hm : s.moves <;> simp [step, hm]
+  · cases op with
+    | dec d =>
+      show ({ s with pos := wrapSub s.pos d } : St).moves = s.moves
+      exact moves_upd s _
+    | finishStyle => simp only [step]; split <;> simp only []
+    | _ => simp only [step]
 
 /-- length arithmetic saturates at the ends of `u64` -/
 theorem C07_length (s : St) (l d : Nat) (h : s.len = some l) (hl : l < U64) :
